@@ -101,6 +101,7 @@ type Frame struct {
 	frameT    map[string][]modTarget
 	loopHavoc map[*ssa.BasicBlock][]string
 	loopKeep  map[string]bool
+	loopHead  map[*ssa.BasicBlock]*State
 }
 
 type rangeInfo struct {
@@ -132,6 +133,7 @@ type Exec struct {
 	heapElemType map[string]types.Type
 	dual     bool
 	curCall  ssa.Instruction
+	preAlloc string
 }
 
 func newExec(w *World, unit string) *Exec {
@@ -176,14 +178,18 @@ func (e *Exec) hget(st *State, name string) string {
 	n := name + "@" + st.base
 	if !e.sc.declared[n] {
 		e.sc.declGlobalConst(n, srt)
-		e.typeAxiom(name, n, true)
+		at := ""
+		if name != "G_alloc" {
+			at = e.sc.declGlobalConst("G_alloc@"+st.base, "Int")
+		}
+		e.typeAxiom(name, n, true, at)
 	}
 	return n
 }
 
 // typeAxiom: every value stored in a typed heap map is a valid value of its Go type
 // (well-typed heap). Emitted for each fresh version of a field map.
-func (e *Exec) typeAxiom(name, term string, global bool) {
+func (e *Exec) typeAxiom(name, term string, global bool, allocTerm string) {
 	t, ok := e.heapElemType[name]
 	if !ok {
 		return
@@ -198,6 +204,11 @@ func (e *Exec) typeAxiom(name, term string, global bool) {
 		return
 	}
 	f := e.sc.rangeFact("(select "+term+" r)", t)
+	// well-formed heap: references stored in the heap denote objects allocated so far
+	if allocTerm != "" {
+		tmp := &State{heap: map[string]string{"G_alloc": allocTerm}, cells: map[string]string{}}
+		f = and(f, e.allocFact(tmp, "(select "+term+" r)", t))
+	}
 	if f == "true" {
 		return
 	}
@@ -221,7 +232,11 @@ func (e *Exec) hhavoc(st *State, name string) string {
 	srt := e.heapSort[name]
 	n := e.sc.freshConst(name, srt)
 	st.heap[name] = n
-	e.typeAxiom(name, n, false)
+	at := ""
+	if name != "G_alloc" {
+		at = e.hget(st, "G_alloc")
+	}
+	e.typeAxiom(name, n, false, at)
 	return n
 }
 
@@ -875,6 +890,22 @@ func (e *Exec) flow(fr *Frame, from, to *ssa.BasicBlock, st *State, edgeStates m
 	if back[edgeKey{from, to}] {
 		ord := hdrOrd[to]
 		e.checkInvariants(fr, st, ord, "preserved", to)
+		// self-check of the havoc set: whatever differs from the loop-head state at the back edge must
+		// have been havocked at the head, otherwise the loop would have been cut unsoundly
+		if head := fr.loopHead[to]; head != nil && head.base == st.base {
+			hv := map[string]bool{}
+			for _, m := range fr.loopHavoc[to] {
+				hv[m] = true
+			}
+			for m, t := range st.heap {
+				if hv[m] || strings.HasPrefix(m, "G_visited") || m == "GB_signalled" {
+					continue
+				}
+				if ht, ok := head.heap[m]; (ok && ht != t) || (!ok && t != e.hget(head, m)) {
+					e.errorf("%s: loop %d modifies heap map %s which is missing from its havoc set (engine bug: effects of a model are incomplete)", fr.fn.Name(), ord, m)
+				}
+			}
+		}
 		return
 	}
 	k := edgeKey{from, to}
@@ -1037,9 +1068,7 @@ func (e *Exec) enterLoop(fr *Frame, st *State, hdr *ssa.BasicBlock, ord int, bod
 			if _, ok := e.heapSort[m]; !ok {
 				continue
 			}
-			n := e.hhavoc(ns, m)
-			q := e.sc.freshName("q.r")
-			e.sc.assume(st.reach, fmt.Sprintf("(forall ((%s Int)) (! (=> %s (= (select %s %s) (select %s %s))) :pattern ((select %s %s))))", q, e.existedAtEntry(q, oldAlloc), n, q, e.hget(st, m), q, n, q))
+			ns.heap[m] = e.hget(st, m)
 		}
 		// the held-lock set belongs to this goroutine: only lock operations change it
 		if !written["G_held"] {
@@ -1084,6 +1113,12 @@ func (e *Exec) enterLoop(fr *Frame, st *State, hdr *ssa.BasicBlock, ord int, bod
 	}
 	for _, ai := range e.autoInvs(fr, ns, hdr, ord) {
 		e.sc.assume(ns.reach, ai.f)
+	}
+	if fr.loopHead == nil {
+		fr.loopHead = map[*ssa.BasicBlock]*State{}
+	}
+	if !all {
+		fr.loopHead[hdr] = ns.clone()
 	}
 	return ns
 }
